@@ -39,6 +39,16 @@ def cases(seed, tier):
         prng = random.Random(rng.getrandbits(64))
         if i % 3 == 0:
             P = gdirect.gen_tree(prng, depth=1, p_async=0.5)
+        elif i % 5 == 2:
+            # workflows that are ended by a command or by a failing
+            # expression while parallel branches are still running: their
+            # results (and further failing expressions) arrive late
+            P = gdirect.gen(prng, max_tasks=7, p_async=0.7, commands=True,
+                            bad_expr=True)
+            for T in P['tasks']:
+                if prng.random() < 0.25 and not T.get('bad_input'):
+                    T['publish']['vbad_%s' % T['name']] = \
+                        '<% $.nosuch.attr.deep %>'
         else:
             P = gdirect.gen(prng, max_tasks=7, p_async=0.5)
         if i % 4 == 1:
